@@ -17,34 +17,57 @@ var EditAlphabet = append([]string{"(", ")", "[", "]", ",", ";", ".", "*", "AS",
 // token deletion, adjacent swap, truncation, replacement and insertion with each
 // token of the edit alphabet, and every gap replaced by a comment or removed.
 func editSpace(r *explore.Run, seedBase int, body func(c *explore.Ctx, e *Entry, s string)) {
+	editSpaceMode(r, seedBase, "both", body)
+}
+
+// editSpaceMode: mode "full" = every edit kind on seeds with <=k deviations; "light" = the edit kinds that do
+// not involve the edit alphabet on seeds with <=k+1 deviations; "both" = full on <=k plus light on exactly k+1.
+// In the thorough tier the full edits are also applied to the seeds with k+1 deviations of the roots that stay small.
+func editSpaceMode(r *explore.Run, seedBase int, mode string, body func(c *explore.Ctx, e *Entry, s string)) {
 	k := seedBase
 	if r.Tier == "thorough" {
 		k++
 	}
 	A := EditAlphabet
-	// roots that stay small get one more deviation for their seeds
-	bounds := rootBounds(k, 400)
-	for extra := 0; extra <= 1; extra++ {
-		var roots []*grammar.Root
-		for _, root := range grammar.Roots {
-			b := bounds[root.Name]
-			if b > k+1 {
-				b = k + 1
+	if mode == "full" || mode == "both" {
+		editSpaceRoots(r, fmt.Sprintf("S5/edits(seeds<=%d)", k), k, grammar.Roots, A, false, 0, body)
+		if r.Tier == "thorough" {
+			bounds := rootBounds(k, 400)
+			var roots []*grammar.Root
+			for _, root := range grammar.Roots {
+				if bounds[root.Name] > k {
+					roots = append(roots, root)
+				}
 			}
-			if b == k+extra {
-				roots = append(roots, root)
+			if len(roots) > 0 {
+				editSpaceRoots(r, fmt.Sprintf("S5/edits(small roots, seeds=%d)", k+1), k+1, roots, A, false, k+1, body)
 			}
 		}
-		if len(roots) == 0 {
-			continue
-		}
-		editSpaceRoots(r, fmt.Sprintf("S5/edits(seeds<=%d)", k+extra), k+extra, roots, A, body)
+	}
+	switch mode {
+	case "both":
+		editSpaceRoots(r, fmt.Sprintf("S5/light-edits(seeds=%d)", k+1), k+1, grammar.Roots, A, true, k+1, body)
+	case "light":
+		// (used by C06, whose oracle re-parses every node of every accepted input) light edits on seeds <=k,
+		// and only the back-quote edit on the seeds with k+1 deviations
+		editSpaceRoots(r, fmt.Sprintf("S5/light-edits(seeds<=%d)", k), k, grammar.Roots, A, true, 0, body)
+		saved := lightKinds
+		lightKinds = []int{8}
+		editSpaceRoots(r, fmt.Sprintf("S5/back-quote-edits(seeds=%d)", k+1), k+1, grammar.Roots, A, true, k+1, body)
+		lightKinds = saved
 	}
 }
 
-func editSpaceRoots(r *explore.Run, space string, k int, roots []*grammar.Root, A []string, body func(c *explore.Ctx, e *Entry, s string)) {
+// lightKinds are the edit kinds that do not multiply by the edit alphabet.
+var lightKinds = []int{0, 1, 2, 5, 6, 8}
+
+func editSpaceRoots(r *explore.Run, space string, k int, roots []*grammar.Root, A []string, light bool, minCost int, body func(c *explore.Ctx, e *Entry, s string)) {
+	what := fmt.Sprintf("every single edit (delete, swap, block swap, truncate, back-quote, replace/insert each of %d edit tokens at every position, comment-glue, no-gap)", len(A))
+	if light {
+		what = "every light single edit (delete, swap, truncate, back-quote, comment-glue, no-gap)"
+	}
 	r.Explore(explore.Options{Space: space, MaxDev: k, SplitLen: 3,
-		Bound: fmt.Sprintf("every sentence of %d roots of G with <=%d deviations x every single edit (delete, swap, block swap, truncate, back-quote, replace/insert each of %d edit tokens at every position, comment-glue, no-gap)", len(roots), k, len(A))},
+		Bound: fmt.Sprintf("every sentence of %d roots of G with <=%d deviations x %s", len(roots), k, what)},
 		func(c *explore.Ctx) {
 			root := roots[c.ChooseFree(len(roots))]
 			s := grammar.Derive(c, root)
@@ -56,7 +79,15 @@ func editSpaceRoots(r *explore.Run, space string, k int, roots []*grammar.Root, 
 			if n == 0 {
 				return
 			}
-			kind := c.ChooseFree(9)
+			kind := 0
+			if c.Cost() < minCost {
+				return // seeds with fewer deviations are covered by another S5 space of the same check
+			}
+			if light {
+				kind = lightKinds[c.ChooseFree(len(lightKinds))]
+			} else {
+				kind = c.ChooseFree(9)
+			}
 			var text string
 			join := func(t []string) string { return strings.Join(t, " ") }
 			switch kind {
@@ -88,9 +119,10 @@ func editSpaceRoots(r *explore.Run, space string, k int, roots []*grammar.Root, 
 					return
 				}
 				i := c.ChooseFree(n - 1)
-				l1 := 1 + c.ChooseFree(4)
-				l2 := 1 + c.ChooseFree(4)
-				if l1 == 1 && l2 == 1 || i+l1+l2 > n {
+				combos := [][2]int{{1, 2}, {2, 1}, {2, 2}, {3, 3}, {4, 4}, {1, 3}, {3, 1}, {2, 4}, {4, 2}}
+				cb := combos[c.ChooseFree(len(combos))]
+				l1, l2 := cb[0], cb[1]
+				if i+l1+l2 > n {
 					return
 				}
 				t := append([]string{}, toks[:i]...)
